@@ -363,6 +363,46 @@ Definition fan_ok (expect : N -> list msg) (chans : list N) (impl : list (list m
 Definition judge_fan (ops : list op) (msgs : list msg) (chans : list N) (impl : list (list msg)) : bool :=
   fan_ok (recv_a (fst (run_a a_init ops)) msgs) chans impl.
 
+(* ---- the table changes BETWEEN the messages of a stream (comm/p2p/libp2p.go
+   ProcessMessagesFromStream: GetSubscribers is called anew for every decoded message, so a message
+   goes to the subscriptions live at the moment IT is decoded - whatever was subscribed or cancelled
+   since the previous message of the same stream, same (session, type) or not).  An interleaved
+   script: table operations and messages in the order in which they happened (a message = the moment
+   its fan-out was started; an operation issued strictly between two messages). ---- *)
+
+Inductive fev :=
+| FOp (o : op)      (* Sub / Unsub on the table *)
+| FMsg (m : msg).   (* a message decoded at this point *)
+
+Definition fops (evs : list fev) : list op :=
+  flat_map (fun e => match e with FOp o => [o] | FMsg _ => [] end) evs.
+
+Definition m_sess (m : msg) : string := fst (fst (fst m)).
+Definition m_type (m : msg) : N := snd (fst (fst m)).
+
+Section FanI.
+  Context {X : Type}.
+  Variable stepX : X -> op -> X.
+  Variable subsX : X -> string -> N -> list N.
+  (* what channel c is handed over the whole script, started in state st *)
+  Fixpoint recvi_of (st : X) (evs : list fev) (c : N) : list msg :=
+    match evs with
+    | [] => []
+    | FOp o :: r => recvi_of (stepX st o) r c
+    | FMsg m :: r => repeat m (copies c (subsX st (m_sess m) (m_type m))) ++ recvi_of st r c
+    end.
+End FanI.
+
+Definition recvi_c : cstate -> list fev -> N -> list msg :=
+  recvi_of (step_c unwrap) (fun st s t => subscribers s t (fst st)).
+Definition recvi_a : astate -> list fev -> N -> list msg :=
+  recvi_of step_a (fun st s t => spec_subscribers s t (fst st)).
+
+(* The judge for an interleaved script: per channel, the multiset received is the one the
+   specification's live subscriptions AT THE TIME OF EACH MESSAGE entitle it to. *)
+Definition judge_fani (evs : list fev) (chans : list N) (impl : list (list msg)) : bool :=
+  fan_ok (recvi_a a_init evs) chans impl.
+
 (* ================================================================================================
    Concurrent use of the table (comm/p2p/subscription.go: every SubscribeTo / UnSubscribeFrom /
    GetSubscribers runs under the manager's mutex, so each is one atomic step on the shared table;
